@@ -373,6 +373,10 @@ func NormDefault(d string) string {
 		inner := strings.ReplaceAll(d[1:len(d)-1], `""`, `"`)
 		d = "'" + strings.ReplaceAll(inner, "'", "''") + "'"
 	}
+	// the keywords TRUE and FALSE are case-insensitive
+	if l := strings.ToLower(d); l == "true" || l == "false" {
+		d = l
+	}
 	return NormExpr(d)
 }
 
